@@ -54,16 +54,16 @@ func binReal[T realnum](f string, a, b T) (interface{}, bool) {
 		return b2t[T](a == b), true
 	case "ne.same":
 		return b2t[T](a != b), true
-	case "minb":
-		if a < b {
-			return a, true
+	case "minb": // the kernels' form: `if b < a { a = b }`
+		if b < a {
+			return b, true
 		}
-		return b, true
+		return a, true
 	case "maxb":
-		if a > b {
-			return a, true
+		if b > a {
+			return b, true
 		}
-		return b, true
+		return a, true
 	}
 	return nil, false
 }
@@ -203,6 +203,16 @@ func binStr(f string, a, b string) (interface{}, error) {
 		return a == b, nil
 	case "ne":
 		return a != b, nil
+	case "minb":
+		if b < a {
+			return b, nil
+		}
+		return a, nil
+	case "maxb":
+		if b > a {
+			return b, nil
+		}
+		return a, nil
 	case "gt.same":
 		return strTF(a > b), nil
 	case "gte.same":
